@@ -29,7 +29,8 @@ SHARED = {
             ("C38", "R2.peer-data-operation-guarded:Packetizer.read_message", "reading a packet of an unknown type must not raise: the session would end instead of answering", "zero-expected")],
     "C15": [("C14", "R2.gss-claim-needs-mic-check", "the authenticated flag that opens the gate is granted only after a completed proof check"),
             ("C14", "R1.grant-under-success", "the authenticated flag that opens the gate is set only on the success path")],
-    "C17": [("C41", "R2.line-reader", "a known_hosts line that is dropped while loading makes its host unknown, and an accepting policy then lets any key through"),
+    "C17": [("C36", "R2.eq-is-fields", "the comparison that accepts the server's key compares the public numbers themselves, not a hash of them"),
+            ("C41", "R2.line-reader", "a known_hosts line that is dropped while loading makes its host unknown, and an accepting policy then lets any key through"),
             ("C41", "R3.", "the host key is looked up under the name the user connected to"),
             ("C36", "R2.fields-cover-the-encoded-public-numbers", "key equality used to accept the server's key compares every public number")],
     "C21": [("C01", "R8.compression-activation", "payload bytes arrive intact only if both ends (re)start compression together"),
@@ -49,5 +50,7 @@ SHARED = {
     "C09": [("C01", "R2.seq-increment", "the rollover guard fires on the wrap of the inbound counter: a KEXINIT after 2**32 packets must not look like the first packet")],
     "C10": [("C11", "R4.gated-sender-tests-gate-under-lock", "user traffic is held back from the moment our KEXINIT goes out: a send that slips past the gate makes the peer drop the session and the re-key never completes")],
     "C13": [("C11", "R5.no-gated-send-under-channel-lock", "a send that can block is never made under the channel lock the teardown path needs: the transport thread could not mark the connection ended")],
-    "C20": [("C19", "R6.advertised-is-tracked", "the window the peer is told is the window whose consumption triggers the next credit: otherwise the threshold is never reached")],
+    "C20": [("C19", "R5.grant-is-consumption", "what is credited back is what was consumed, discarded data included"),
+            ("C21", "R2.addressed-to-remote-id", "credit goes to the channel number the peer chose, or its window never reopens"),
+            ("C19", "R6.advertised-is-tracked", "the window the peer is told is the window whose consumption triggers the next credit: otherwise the threshold is never reached")],
 }
